@@ -71,6 +71,8 @@ def run(tier, corrupt=False):
                     v.violation(key, f"round trip changed the object: {short(strip_sizes(d['obj']))}", case)
                 if d["pos"] != len(s["bytes"]) or d["remaining"] != 0:
                     v.violation(key, f"deserializer consumed {d['pos']} of {len(s['bytes'])} bytes (remaining {d['remaining']})", case)
+                if d.get("window_differs"):
+                    v.violation(key, "the result depends on how the reader came by the bytes: " + d["window_differs"], case)
                 if d["obj"] != "None" and d["obj"].get("_size") != len(s["bytes"]):
                     v.violation(key, f"byte_size {d['obj'].get('_size')} != {len(s['bytes'])} bytes written", case)
                 elif d.get("nested_size_mismatch"):
@@ -103,6 +105,8 @@ def run(tier, corrupt=False):
                     v.violation(key, f"a lossless object does not survive: constructor {s_['ctor_exc']!r} serialize {s_['exc']!r} deserialize {(d_ or {}).get('exc')!r}", case)
                 elif strip_sizes(d_["obj"]) != c["obj"]:
                     v.violation(key, f"round trip changed the object: {short(strip_sizes(d_['obj']))}", case)
+                elif d_.get("window_differs"):
+                    v.violation(key, "the result depends on how the reader came by the bytes: " + d_["window_differs"], case)
                 elif d_["pos"] != len(s_["bytes"]) or d_["remaining"] != 0 or d_["obj"].get("_size") != len(s_["bytes"]) or d_.get("nested_size_mismatch"):
                     v.violation(key, f"consumed {d_['pos']} of {len(s_['bytes'])} bytes, byte_size {d_['obj'].get('_size')}, nested mismatches {d_.get('nested_size_mismatch')}", case)
             n += nv
